@@ -591,8 +591,14 @@ def check(prop, tier, seed):
     tieA_cases = {(d['cfg'], d['case']) for d in dis}
     model_sem_mismatch = []
     found_cases = set()
+    def known_symptom(p):
+        # a problem on the witness of an open finding belongs to that finding only if it IS the recorded failure
+        f = kf_cases.get(p['case'])
+        if not f or not f.get('symptom') or p.get('kind') != 'compile':
+            return False
+        return any(re.search(f['symptom'], e) for e in p.get('errors', []))
     for p in bprobs:
-        if p['case'] in kf_cases:
+        if known_symptom(p):
             continue
         owned = False
         if p['kind'] == 'behaviour' and p['against'] == 'R':
@@ -624,7 +630,7 @@ def check(prop, tier, seed):
                                    note='rustc, running the real proc-macro entry points on this item, reports diagnostics that contradict the property',
                                    replay_cmd='./dwv replay <this file>'), True))
     estats, eprobs = tie_e(prop, cases, seed, tier, {d['case'] for d in mine})
-    for p in [p for p in eprobs if p['case'] not in kf_cases][:5]:
+    for p in [p for p in eprobs if not known_symptom(p)][:5]:
         q = {k: v for k, v in p.items() if k != 'values'}
         violations.insert(0, (dict(kind='failing-input', property=prop, observed=q, hostile_scope=True,
                                    note='inside a hostile invocation scope (std names redefined, no prelude, look-alike inherent methods) or a no_std crate, '
@@ -678,14 +684,14 @@ def check(prop, tier, seed):
     for k in known:
         print('KNOWN-FINDING: property=%s %s %s' % (prop, k['id'], k['what']))
     if bstats:
-        print('behaviour (real rustc): %d items, %d values, %d observations compared with Sem(Gen) and Spec; %d problems (%d on known-finding witnesses)' % (bstats['items'], bstats['values'], bstats['observations'], len(bprobs), len([p for p in bprobs if p['case'] in kf_cases])))
+        print('behaviour (real rustc): %d items, %d values, %d observations compared with Sem(Gen) and Spec; %d problems (%d on known-finding witnesses)' % (bstats['items'], bstats['values'], bstats['observations'], len(bprobs), len([p for p in bprobs if known_symptom(p)])))
     if cstats:
         print('diagnostics (real rustc, real entry points): %d rejected items (%d errors, %d ill-posed discarded), %d token soups (%d accepted); %d problems'
               % (cstats['rejected_items_checked'], cstats['errors_seen'], cstats['ill_posed_discarded'], cstats['soups'], cstats['soups_accepted'], len(cprobs)))
     if estats:
         print('hostile scopes (real rustc): %d items run inside a scope redefining every std name (%d observations agree with the model), %d items type-checked in a no_std crate; '
               '%d items fail only with the known F4 diagnostic; %d problems' % (estats['hostile_items'], estats['hostile_observations'], estats['no_std_items'], estats['known_F4_class_items'],
-                                                                         len([p for p in eprobs if p['case'] not in kf_cases])))
+                                                                         len([p for p in eprobs if not known_symptom(p)])))
     if dstats:
         print('trait solver (real rustc): %d items, %d `Item<M1, M2>: Trait` answers compared with the documented rule and the model\'s where-clauses, %d must-fail items; %d problems'
               % (dstats['items'], dstats['trait_implemented_answers'], dstats['must_fail_items'], len(dprobs)))
